@@ -195,6 +195,8 @@ def search_C04(res):
     p^n < 2^64 the generator's order is tested in the implementation's own arithmetic"""
     try:
         old = subprocess.run(["git", "-C", VERIF, "show", "HEAD:lean/Algobra/Gen/ConwayText.lean"], capture_output=True, text=True).stdout
+        if not old:     # a scratch copy of /verif without its history (tools/seed_eval.sh)
+            old = subprocess.run(["git", "-C", "/verif", "show", "HEAD:lean/Algobra/Gen/ConwayText.lean"], capture_output=True, text=True).stdout
         new = open(os.path.join(GEN, "ConwayText.lean")).read()
     except Exception as e:
         return 0
